@@ -113,7 +113,7 @@ Proof.
   destruct (k =? 0); [exact HC|].
   destruct (preprocess (build C n) A s) as [s1|] eqn:Ep; [|exact HC].
   pose proof (preprocess_in_range C n A s s1 Hnz Ep) as HA.
-  destruct (execute_query (build C n) (sort_abs A) s1) as [s2 r] eqn:Eq.
+  destruct (execute_query (build C n) (enum_key A) s1) as [s2 r] eqn:Eq.
   destruct (exec_spec_holds C n A HQ HA s s1 s2 r HC Ep Eq) as [_ [_ Hc]].
   destruct (0 <? r); exact Hc.
 Qed.
@@ -127,9 +127,9 @@ Proof.
   destruct (k =? 0); [split; reflexivity|].
   destruct (preprocess d A s) as [s1|], (preprocess d A s') as [s1'|]; try contradiction;
     [|split; reflexivity].
-  destruct (execute_query_core d (sort_abs A) s1 s1' Hp) as [Hc Hr].
-  destruct (execute_query d (sort_abs A) s1) as [s2 r],
-           (execute_query d (sort_abs A) s1') as [s2' r'].
+  destruct (execute_query_core d (enum_key A) s1 s1' Hp) as [Hc Hr].
+  destruct (execute_query d (enum_key A) s1) as [s2 r],
+           (execute_query d (enum_key A) s1') as [s2' r'].
   cbn [fst snd] in Hc, Hr. subst r'. destruct Hc as [Ht _]. unfold rt. rewrite Ht.
   destruct (0 <? r); split; reflexivity.
 Qed.
@@ -280,7 +280,7 @@ Proof.
 Qed.
 
 (* ---------- the cursor is shared between models: refuted (K2) ---------- *)
-(* ENUMERATION_CACHE is one process-global map keyed by the (sorted) assumption list only.
+(* ENUMERATION_CACHE is one process-global map keyed by the assumption set (the sorted, de-duplicated list) only.
    x1 <-> x2 (2 models) and "x1, x2 free" (4 models) over the same two features, no assumptions,
    page size 1: after one page of the first model the second model's first page is its SECOND
    configuration, not the one a process that only loaded the second model returns. *)
@@ -294,7 +294,7 @@ Theorem cursor_shared_refuted : exists C1 C2 n A k,
   let cur1 := snd (fst (enumerate (build C1 n) A k [] (fresh_scratch C1))) in
   let own_page := snd (enumerate (build C2 n) A k [] (fresh_scratch C2)) in
   let shared_page := snd (enumerate (build C2 n) A k cur1 (fresh_scratch C2)) in
-  cur_get cur1 (sort_abs A) = k /\
+  cur_get cur1 (enum_key A) = k /\
   own_page = Some (map sort_abs (slice 0 k (EOr C2 A))) /\
   shared_page = Some (map sort_abs (slice k (k + k) (EOr C2 A))) /\
   shared_page <> own_page.
